@@ -496,7 +496,7 @@ func (txn *Transaction) SiafundOutputID(i int) SiafundOutputID {
 // SiafundClaimOutputID returns the ID of the siacoin claim output for the
 // siafund input at index i.
 func (txn *Transaction) SiafundClaimOutputID(i int) SiacoinOutputID {
-	return hashAll(txn.SiafundOutputID(i))
+	return txn.SiafundInputs[i].ParentID.ClaimOutputID()
 }
 
 // FileContractID returns the ID of the file contract at index i.
